@@ -358,6 +358,88 @@ def dump_bounded(R, ro, rule):
     R.require_min(rule, 1)
 
 
+# Non-boolean options with a documented special value that is not a number ("In frames, None means infinity" next to both
+# declarations, _debug.py and debug.py; confirmed by reading).  option -> the special value's test kind.
+SENTINEL_OPTIONS = {"STACK_DUMP_LIMIT": "isnone"}
+
+
+def sentinel_option_values(R, ro, rule):
+    """A numeric option whose documented special value is None is read inside option-guarded diagnostics (dump_stack under
+    DUMP_STACK): arithmetic or an ordering comparison on the value read is reached only on the not-None edge of an `is None` test of
+    it.  Otherwise a documented setting raises TypeError inside flush()/the scheduler - only with the dump option on."""
+    n = 0
+    for mname, m in sorted(R.repo.modules.items()):
+        for f in m.all_functions.values():
+            reads = [x for x in q.scope_nodes(f.node) if isinstance(x, ast.Attribute) and x.attr in SENTINEL_OPTIONS
+                     and isinstance(x.ctx, ast.Load) and q.dotted(x.value).split(".")[-1] in ("options", "_debug_options")]
+            if not reads:
+                continue
+            cfg = cfg_of(f)
+            for rd in reads:
+                st = q.enclosing_stmt(rd)
+                names = []
+                if isinstance(st, ast.Assign) and st.value is rd and len(st.targets) == 1 and isinstance(st.targets[0], ast.Name):
+                    names = [st.targets[0].id]
+                else:
+                    # used in place: the read itself must not be an arithmetic operand
+                    par = getattr(rd, "_parent", None)
+                    bad = isinstance(par, (ast.BinOp, ast.UnaryOp, ast.AugAssign)) or (isinstance(par, ast.Compare) and any(
+                        isinstance(o, (ast.Lt, ast.LtE, ast.Gt, ast.GtE)) for o in par.ops))
+                    n += 1
+                    R.check(not bad, rule, "%s:%s:in-place" % (f.qualname, rd.attr), R.site(f, rd),
+                            "options.%s is not computed with in place" % rd.attr,
+                            "%s computes with options.%s directly (`%s`): the documented value None raises TypeError only when the dump option is on"
+                            % (f.qualname, rd.attr, q.src(par)[:50]))
+                    continue
+                v = names[0]
+
+                def arith(e, v=v):
+                    for x in ast.walk(e):
+                        ops = []
+                        if isinstance(x, ast.BinOp):
+                            ops = [x.left, x.right]
+                        elif isinstance(x, ast.UnaryOp) and not isinstance(x.op, ast.Not):
+                            ops = [x.operand]
+                        elif isinstance(x, ast.Compare) and any(isinstance(o, (ast.Lt, ast.LtE, ast.Gt, ast.GtE)) for o in x.ops):
+                            ops = [x.left] + list(x.comparators)
+                        elif isinstance(x, ast.AugAssign):
+                            ops = [x.target, x.value]
+                        elif isinstance(x, ast.Call) and q.call_name(x) in ("range", "int", "abs", "min", "max"):
+                            ops = list(x.args)
+                        if any(isinstance(o, ast.Name) and o.id == v and not in_tested_arm(o) for o in ops):
+                            return True
+                    return False
+
+                def in_tested_arm(o, v=v):
+                    # `None if v is None else v + skip`: the conditional expression is the test
+                    for a in q.ancestors(o):
+                        if isinstance(a, ast.IfExp):
+                            k, s_, pos = q.atom_test(a.test)
+                            if k == "isnone" and s_ == v:
+                                arm = a.orelse if pos else a.body
+                                if any(x is o for x in ast.walk(arm)):
+                                    return True
+                    return False
+                targets = [nd for nd in cfg.nodes if nd.kind in ("stmt", "test", "for") and any(arith(e) for e in kit.node_exprs(nd))]
+                src_nodes = [nd for nd in cfg.nodes if nd.kind == "stmt" and nd.ast is st]
+
+                def not_none(x, v=v):
+                    if x.kind != "test":
+                        return None
+                    k, s_, pos = q.atom_test(x.ast)
+                    if k == "isnone" and s_ == v:
+                        return "F" if pos else "T"
+                    return None
+                n += 1
+                p = kit.path_avoiding_guard(cfg, targets, not_none, N, sources=src_nodes, dead_ok=True) if targets and src_nodes else None
+                R.check(p is None, rule, "%s:%s" % (f.qualname, rd.attr), R.site(f, rd),
+                        "the value of options.%s (`%s`) is computed with only where it was tested not to be None (%d arithmetic uses)" % (rd.attr, v, len(targets)),
+                        "%s reads options.%s into `%s` and computes with it without the None test: the documented setting None (\"means infinity\") "
+                        "raises TypeError inside the flush / scheduler step - only with the dump option on" % (f.qualname, rd.attr, v),
+                        cfg.fmt_path(p) if p else None)
+    R.require_min(rule, 1)
+
+
 def perf_record_ready(R, ro, rule):
     """dump_perf_stats() files the task's perf_stats record whenever the scheduler's profiling arm runs; the record is filled by
     collect_perf_stats() under a test of the same option made elsewhere (at completion).  The two tests are separate reads of a
@@ -574,6 +656,7 @@ def run(R):
     dump_bounded(R, ro, "C20.DUMP-BOUNDED")
     common.dependency_elements_typed(R, ro, "C20.DIAG-SAFE")
     perf_record_ready(R, ro, "C20.PERF-RECORD")
+    sentinel_option_values(R, ro, "C20.OPTION-VALUE")
     # diagnostic callees defined in the repository are themselves diagnostic-only
     for mq in ("async_task.AsyncTask.collect_perf_stats", "async_task.AsyncTask.dump_perf_stats", "batching.BatchBase.dump_perf_stats", "async_task.AsyncTask.to_str", "batching.BatchItemBase.to_str"):
         f = repo.fn(mq)
@@ -687,6 +770,23 @@ def semantic_option(R, ro, f, node, name, pol, site, key):
     R.check(ok and drops, "C20.SEMANTIC", key, site,
             "KEEP_DEPENDENCIES only decides whether references are dropped (%s); the readers of the kept entries are decided by C20.KEEP-DEPS.*" % ", ".join(drops),
             "KEEP_DEPENDENCIES guards more than dropping references in %s" % f.qualname)
+    # ... and drops them only once the step they belong to has gone through: a drop placed in a finally clause / handler also runs
+    # when that step failed or was refused (a re-entrant flush answered with BatchingError while the outer flush body is still
+    # walking self.items) - the entries still have readers then, and with the option on they are kept
+    held = None
+    chain = [node] + list(q.ancestors(node))
+    for child, a in zip(chain, chain[1:]):
+        if isinstance(a, (ast.FunctionDef, ast.AsyncFunctionDef)):
+            break
+        if isinstance(a, ast.Try) and any(x is child for x in a.finalbody):
+            held = "the finally clause of the try at line %d" % a.lineno
+        elif isinstance(a, ast.ExceptHandler):
+            held = "the handler at line %d" % a.lineno
+    R.check(held is None, "C20.SEMANTIC", key + ":after-success", site,
+            "the drop runs only when the step before it completed normally (not in a finally clause or handler)",
+            "%s drops the references (%s) in %s, so also when the step failed or was refused: with KEEP_DEPENDENCIES off the list is emptied "
+            "under code that still walks it (the flush body of a batch whose re-entrant flush was refused never completes the remaining "
+            "items), with the option on the same program works" % (f.qualname, ", ".join(drops) or "?", held))
 
 
 # -------------------------------------------------------------------------------------------
